@@ -1,0 +1,34 @@
+//go:build verif
+
+package couchbase
+
+import (
+	"github.com/Trendyol/go-dcp/config"
+	"github.com/Trendyol/go-dcp/wrapper"
+	"github.com/couchbase/gocbcore/v10"
+)
+
+// VerifNewClient wraps externally created gocbcore agents in the real client.
+// Only compiled with the `verif` build tag (verification harness).
+func VerifNewClient(cfg *config.Dcp, agent, metaAgent *gocbcore.Agent, dcpAgent *gocbcore.DCPAgent) Client {
+	return &client{agent: agent, metaAgent: metaAgent, dcpAgent: dcpAgent, config: cfg}
+}
+
+// VerifMinSeqNo exposes getMinSeqNo on a supplied replica table.
+// Each entry is nil (absent) or {vbUUID, persistSeqNo}.
+func VerifMinSeqNo(table []*[2]uint64) gocbcore.SeqNo {
+	replicas := make([]*vbUUIDAndSeqNo, len(table))
+	for i, e := range table {
+		if e != nil {
+			replicas[i] = &vbUUIDAndSeqNo{vbUUID: gocbcore.VbUUID(e[0]), seqNo: gocbcore.SeqNo(e[1])}
+		} else {
+			replicas[i] = &vbUUIDAndSeqNo{absent: true}
+		}
+	}
+	r := &rollbackMitigation{persistedSeqNos: wrapper.CreateConcurrentSwissMap[uint16, []*vbUUIDAndSeqNo](8)}
+	r.persistedSeqNos.Store(0, replicas)
+	return r.getMinSeqNo(0)
+}
+
+// VerifParseVersion exposes nodeVersionFromString.
+func VerifParseVersion(s string) (*Version, error) { return nodeVersionFromString(s) }
